@@ -21,6 +21,9 @@ pub enum Ev {
     /// an ordinary accepted command
     Work { s: usize },
     Disconnect { s: usize },
+    /// the session writes the counter key itself (set / set-safe at the version ceiling / remove / increment): the key
+    /// belongs to the node, it keeps saying how many sessions are open
+    WriteCounter { s: usize, how: u8 },
 }
 
 #[derive(Clone, Debug, Serialize, Deserialize)]
@@ -39,6 +42,7 @@ fn ev_strategy() -> impl Strategy<Value = Ev> {
         1 => s.clone().prop_map(|s| Ev::Refused { s }),
         1 => s.clone().prop_map(|s| Ev::Work { s }),
         4 => s.clone().prop_map(|s| Ev::Disconnect { s }),
+        1 => (s.clone(), 0..4u8).prop_map(|(s, how)| Ev::WriteCounter { s, how }),
     ]
 }
 
@@ -115,6 +119,19 @@ pub fn run_case(ctx: &Ctx, case: &Case) -> Outcome {
             Ev::Work { s } => {
                 kind = "work";
                 sessions[*s].send(&node, "set k v");
+            }
+            Ev::WriteCounter { s, how } => {
+                kind = "client-writes-the-counter";
+                let line = match how % 4 {
+                    0 => "set $connections 99",
+                    1 => "set-safe $connections 2147483646 2",
+                    2 => "remove $connections",
+                    _ => "increment $connections 5",
+                };
+                sessions[*s].send(&node, line);
+                if sel[*s].is_some() {
+                    nontrivial = true;
+                }
             }
             Ev::Disconnect { s } => {
                 kind = if sel[*s].is_some() { "disconnect-selected" } else { "disconnect-unselected" };
